@@ -629,4 +629,87 @@ impl World<Tok> {
         self.check_reg(out, dst, &op);
         self.check_reg(out, a, &op);
     }
+
+    /// `mul dst a b kind`: multiply / multiplication_like_operation / the four `*` operator forms
+    pub fn mul(&mut self, out: &mut Out, dst: usize, a: usize, b: usize, kind: &str) {
+        let op = format!("mul {dst} {a} {b} {kind}");
+        out.announce(&op);
+        let self_owned = matches!(kind, "multiply" | "like" | "op_oo" | "op_ob");
+        let rhs_owned = matches!(kind, "multiply" | "like" | "op_oo" | "op_bo");
+        let (ao, ra) = self.refs[a].clone().unwrap();
+        let (_, rb) = self.refs[b].clone().unwrap();
+        // reference: the textbook product over symbolic terms
+        let pa = if self_owned { "" } else { "'" };
+        let pb = if rhs_owned { "" } else { "'" };
+        let want: Option<Ref> = if ra.ncols != rb.nrows {
+            None
+        } else if ra.nrows == 0 || rb.ncols == 0 {
+            Some(Ref { nrows: ra.nrows, ncols: rb.ncols, rows: Vec::new() })
+        } else {
+            let k = ra.ncols;
+            Some(Ref {
+                nrows: ra.nrows,
+                ncols: rb.ncols,
+                rows: (0..ra.nrows).map(|i| (0..rb.ncols).map(|j| {
+                    if k == 0 {
+                        "d".to_string()
+                    } else if kind == "like" {
+                        format!("<{}|{}>", (0..k).map(|t| ra.rows[i][t].clone()).collect::<Vec<_>>().join(";"), (0..k).map(|t| rb.rows[t][j].clone()).collect::<Vec<_>>().join(";"))
+                    } else {
+                        let mut acc = format!("({}{pa}'*{}{pb}')", ra.rows[i][0], rb.rows[0][j]);
+                        for t in 1..k {
+                            acc = format!("({acc}+({}{pa}'*{}{pb}'))", ra.rows[i][t], rb.rows[t][j]);
+                        }
+                        acc
+                    }
+                }).collect()).collect(),
+            })
+        };
+        let calls = std::cell::Cell::new(0usize);
+        let bad_slices = std::cell::Cell::new(0usize);
+        let k_expected = ra.ncols;
+        let res: Option<Result<matreex::Matrix<Tok>, matreex::Error>> = match kind {
+            "multiply" => { let x = self.regs[a].take().unwrap(); let y = self.regs[b].take().unwrap(); catch(|| x.multiply(y)) }
+            "like" => {
+                let x = self.regs[a].take().unwrap();
+                let y = self.regs[b].take().unwrap();
+                catch(|| x.multiplication_like_operation(y, |ls: &[Tok], rs: &[Tok]| {
+                    calls.set(calls.get() + 1);
+                    if ls.is_empty() || ls.len() != rs.len() || ls.len() != k_expected { bad_slices.set(bad_slices.get() + 1); }
+                    Tok::new(format!("<{}|{}>", ls.iter().map(|t| t.val.clone()).collect::<Vec<_>>().join(";"), rs.iter().map(|t| t.val.clone()).collect::<Vec<_>>().join(";")))
+                }))
+            }
+            "op_oo" => { let x = self.regs[a].take().unwrap(); let y = self.regs[b].take().unwrap(); catch(|| x * y).map(Ok) }
+            "op_ob" => { let x = self.regs[a].take().unwrap(); let y = self.regs[b].as_ref().unwrap(); catch(|| x * y).map(Ok) }
+            "op_bo" => { let y = self.regs[b].take().unwrap(); let x = self.regs[a].as_ref().unwrap(); catch(|| x * y).map(Ok) }
+            _ => { let x = self.regs[a].as_ref().unwrap(); let y = self.regs[b].as_ref().unwrap(); catch(|| x * y).map(Ok) }
+        };
+        if self_owned { self.refs[a] = None; }
+        if rhs_owned { self.refs[b] = None; }
+        let is_op = kind.starts_with("op_");
+        let head = match &res {
+            None => "panic".to_string(),
+            Some(Err(e)) => format!("err {}", err_name(*e)),
+            Some(Ok(_)) => "ok".to_string(),
+        };
+        let want_head = if want.is_some() { "ok" } else if is_op { "panic" } else { "err ShapeNotConformable" };
+        if head != want_head {
+            out.oracle_fail(&format!("{op}: expected `{want_head}`, implementation gave `{head}`"));
+        }
+        if kind == "like" {
+            let expect_calls = match &want { Some(w) if k_expected > 0 => w.nrows * w.ncols, _ => 0 };
+            if calls.get() != expect_calls || bad_slices.get() != 0 {
+                out.oracle_fail(&format!("{op}: closure called {} times (expected {expect_calls}), {} calls with empty / unequal / wrong-length slices", calls.get(), bad_slices.get()));
+            }
+        }
+        if let Some(Ok(m)) = res {
+            self.regs[dst] = Some(m);
+            self.refs[dst] = want.map(|w| (ao, w));
+        }
+        out.count(&format!("mul:{head}"));
+        out.observe(&format!("{head} | {} | {} | {}", self.reg_str(dst), self.reg_str(a), self.reg_str(b)));
+        for r in [dst, a, b] {
+            self.check_reg(out, r, &op);
+        }
+    }
 }
